@@ -21,6 +21,9 @@ import vlib, drivers
 import mpi_p2p_common as M
 
 LEVEL = "model_checking"
+META = {"text": 'TLC explores every interleaving of posts, matches and completions of every generated MPI program (2..6 ranks, up to 8 operations per rank: Send/Isend/Ssend/Issend/Bsend/Recv/Irecv/Sendrecv/Probe/Iprobe/Wait/Test/Waitall, ANY_SOURCE/ANY_TAG, world/dup/split communicators, sizes below/at/above the eager and detached thresholds) under the reference semantics MpiP2P, with compatibility, exactly-once, sender-side and receiver-side non-overtaking and exact status as invariants, and yields the set of allowed outcomes; every execution recorded from the real SMPI (default thresholds and lowered ones so that eager, detached and rendez-vous sends all occur) is validated by TLC as a behaviour of that semantics (payload identity, source, tag, count, truncation) and its outcome compared with TLC\'s set. The small-scope family (one sender, two messages, two receives over all tag/wildcard/size-class combinations; two senders; equal tags across communicators) is complete.',
+        "note": 'Trusted: TLC; the driver logs call/ret lines in real execution order (one process, sequential scheduler, O_APPEND writes). Conformance holds for the executions run (bounded programs, MPI_BYTE payloads in multiples of 4 bytes); exhaustiveness only for the specification within the stated program sizes. Three deviations of the two-mailbox mode (smpi/async-small-thresh > 0) are recorded as known findings and classified by TLC through explicit relaxations of the specification; the default configuration shows none.',
+        "technique": 'TLC model checking of MpiP2P (all interleavings, outcome sets) + TLC trace validation of real smpirun executions (MpiP2P_trace)'}
 DRIVERS = {"mpi_p2p": (["mpi_p2p.cpp"], "smpi", [])}
 
 
@@ -50,8 +53,8 @@ def run(ctx):
     for cfg in cfgs:
         progs += M.small_scope(cfg, quick)
     n_core = len(progs)
-    n_paired = 240 if quick else 3000
-    n_free = 40 if quick else 600
+    n_paired = 240 if quick else 2000
+    n_free = 40 if quick else 400
     mc_cap = 6000 if quick else 60000          # programs above this measure are validated (T) but not explored (M)
     allcfg = list(M.CONFIGS)
     for i in range(n_paired):
@@ -239,6 +242,16 @@ def run(ctx):
         "payload identity is checked for messages of at least 4 bytes; sizes are multiples of 4 bytes"]
 
 
-# Mutations tried (scratch worktree, quick tier); every one must give exit 1 with a VIOLATION line:
+# Mutations tried (tools/mutbuild.sh mpi, quick tier, VERIF_REPO/VERIF_BUILD pointing at the scratch tree); every one
+# gave exit 1 with VIOLATION lines (20+ each), on top of the known two-mailbox findings:
 MUTATIONS = """
+M1 smpi_request.cpp match_common: tag filter ignored for user messages ((sender->tag_ >= 0) || equal tags)
+   -> caught: receives with a specific tag report the other tag / message id (T rejects the ret line), small-scope family A.
+M2 MailboxImpl::find_matching_comm: the newest matching communication is taken instead of the oldest (reverse scan)
+   -> caught: second message received first (non-overtaking), also deadlock reports the semantics does not allow.
+M3 smpi_request.cpp match_common: communicator ids not compared
+   -> caught: messages cross world / dup / split communicators (family C: receive on the other communicator gets it).
+Not a mutation but the same mechanism: on the unchanged tree the check found the three two-mailbox deviations
+(KNOWN_FINDINGS C28:two-mailboxes:*); with /verif/proposed/fix-C28-trunc-two-mailboxes.diff applied to the scratch tree
+the stand-alone reproducer of the `trunc` deviation reports MPI_ERR_TRUNCATE instead of deadlocking.
 """
